@@ -5,7 +5,10 @@
    performs on the caller's stream are NOT written here: they are the definitions of Gen/GenOwnership.v, regenerated from
    the source (tools/py2v_c18.py), and this model interprets them.  The cursor arithmetic is Gen/GenCursor.v.
 
-   Modelled: closed/open state of the stream, its position during read sessions (the stream may stand anywhere when it
+   Modelled: closed/open state of the stream, what it answers when asked whether it can seek (yes, no, or nothing at all:
+   a source that offers only read() has no `seekable` attribute) and how the code asks (Gen: `x.seekable()` raises
+   AttributeError on such a source, `getattr(x, "seekable", lambda: False)()` takes it for a source that cannot seek),
+   its position during read sessions (the stream may stand anywhere when it
    is handed to laspy: the LAS content starts where the stream stands), the lazily created point source, the exception
    class (LaspyException or another Exception) with which opening fails and which except clause sees it, and the
    failures that come AFTER a successful open: a point area that ends inside a record (read_points / read raise), EVLRs
@@ -27,7 +30,23 @@ Inductive outcome := OOk | OEmpty | OBadSig | OTruncated | OBadVlr | OIncompat.
 Record finfo := mkF { f_offset : Z; f_count : Z; f_psize : Z; f_minor : Z; f_nevlrs : Z;
                       f_evlr_start : Z; f_evlr_bytes : Z; f_size : Z; f_evlr_bad : bool }.
 
-Record stream := mkS { s_closed : bool; s_pos : Z; s_seekable : bool }.
+(* what the object answers when it is asked whether it can seek: True | False | it has no `seekable` attribute at all
+   (a source that offers only read(): it cannot seek or tell either) *)
+Inductive seekcap := CapYes | CapNo | CapAbsent.
+
+Record stream := mkS { s_closed : bool; s_pos : Z; s_cap : seekcap }.
+
+(* seek and tell work *)
+Definition cap_seekable (c : seekcap) : bool := match c with CapYes => true | _ => false end.
+Definition s_seekable (s : stream) : bool := cap_seekable (s_cap s).
+
+(* the answer a seekability question gets; None = AttributeError *)
+Definition query (q : squery) (c : seekcap) : option bool :=
+  match c with
+  | CapYes => Some true
+  | CapNo => Some false
+  | CapAbsent => match q with QCall => None | QGetattrFalse => Some false end
+  end.
 
 (* the reader's lazily created point source: none yet | UncompressedPointReader | EmptyPointReader; the flag says
    whether the object was handed the reader's source *)
@@ -64,8 +83,8 @@ Definition fail_exn (m : omode) (o : outcome) : option exn :=
   end.
 
 (* ---------------- closing ---------------- *)
-Definition close_stream (s : stream) : stream := mkS true (s_pos s) (s_seekable s).
-Definition set_pos (s : stream) (p : Z) : stream := mkS (s_closed s) p (s_seekable s).
+Definition close_stream (s : stream) : stream := mkS true (s_pos s) (s_cap s).
+Definition set_pos (s : stream) (p : Z) : stream := mkS (s_closed s) p (s_cap s).
 
 (* a close action run by a point source object; it holds the stream only if it was handed it (None.close() raises) *)
 Definition ps_act (src_some : bool) (s : stream) (a : cact) : stream :=
@@ -118,29 +137,43 @@ Definition sop_step (f : finfo) (c : cur) (op : sop) : cur :=
 
 Definition run_sops (f : finfo) (ops : list sop) (pos : Z) : Z := c_pos (fold_left (sop_step f) ops (mkCur pos 0 0)).
 
-(* guard of the branch of LasHeader.read_evlrs that touches the stream *)
-Definition evlr_guard (f : finfo) (seekable : bool) : bool := (4 <=? f_minor f) && (0 <? f_nevlrs f) && seekable.
+(* LasHeader.read_evlrs on the caller's stream: the answer to its seekability question (None: AttributeError). It asks for
+   1.4 headers only, once before its tests or only when EVLRs are announced (gen_read_evlrs_query_asked); an answer that
+   was not asked for is not used (the test `number_of_evlrs > 0` is false then) *)
+Definition evlr_query (f : finfo) (c : seekcap) : option bool :=
+  if (4 <=? f_minor f) && gen_read_evlrs_query_asked (0 <? f_nevlrs f) then query gen_read_evlrs_query c else Some false.
 
-Definition header_read_pos (f : finfo) (read_evlrs seekable : bool) (pos : Z) : Z :=
+Definition evlr_raises (f : finfo) (c : seekcap) : bool := match evlr_query f c with None => true | Some _ => false end.
+
+(* guard of the branch of LasHeader.read_evlrs that touches the stream *)
+Definition evlr_guard (f : finfo) (c : seekcap) : bool :=
+  (4 <=? f_minor f) && (0 <? f_nevlrs f) && match evlr_query f c with Some b => b | None => false end.
+
+Definition header_read_pos (f : finfo) (read_evlrs : bool) (c : seekcap) (pos : Z) : Z :=
   let p1 := run_sops f gen_prefetch_ops pos in
-  if gen_read_from_prefetch_then_evlrs && read_evlrs && evlr_guard f seekable then run_sops f gen_read_evlrs_ops p1 else p1.
+  if gen_read_from_prefetch_then_evlrs && read_evlrs && evlr_guard f c then run_sops f gen_read_evlrs_ops p1 else p1.
 
 (* header.evlrs is still None after opening although the file announces EVLRs: LasReader.read will fetch them *)
-Definition pending_evlrs (f : finfo) (read_evlrs seekable : bool) : bool :=
-  (4 <=? f_minor f) && (0 <? f_nevlrs f) && (negb read_evlrs || negb seekable).
+Definition pending_evlrs (f : finfo) (read_evlrs : bool) (c : seekcap) : bool :=
+  (4 <=? f_minor f) && (0 <? f_nevlrs f) && (negb read_evlrs || negb (evlr_guard f c)).
 
-(* the exception of the constructor, the content being what it is: a reader that loads the EVLRs while opening
-   (asked to, and the stream can seek to them) fails on EVLRs that cannot be decoded (UnicodeDecodeError) *)
+(* the exception of the constructor, the content being what it is: a reader that loads the EVLRs while opening (asked
+   to) fails when the stream cannot even be asked whether it can seek (AttributeError), and - the stream can seek to
+   them - on EVLRs that cannot be decoded (UnicodeDecodeError) *)
 Definition is_r (m : omode) : bool := match m with MR => true | _ => false end.
-Definition open_exn (m : omode) (o : outcome) (f : finfo) (read_evlrs seekable : bool) : option exn :=
+Definition open_exn (m : omode) (o : outcome) (f : finfo) (read_evlrs : bool) (c : seekcap) : option exn :=
   match fail_exn m o with
   | Some x => Some x
-  | None => if is_r m && gen_read_from_prefetch_then_evlrs && read_evlrs && evlr_guard f seekable && f_evlr_bad f
+  | None => if is_r m && gen_read_from_prefetch_then_evlrs && read_evlrs && (evlr_raises f c || evlr_guard f c && f_evlr_bad f)
             then Some XOther else None
   end.
 
 (* ---------------- opening ---------------- *)
 Definition is_a (m : omode) : bool := match m with MA => true | _ => false end.
+
+(* LasAppender.__init__ starts with `if not dest.seekable(): raise ..`: its own exception for a destination that answers
+   no, AttributeError for one that cannot be asked *)
+Definition appender_refusal (c : seekcap) : exn := match c with CapAbsent => XOther | _ => gen_appender_nonseekable_exn end.
 
 Definition add_obs (t : st) (s' : stream) (hw : how) (declared : bool) : list obs :=
   st_log t ++ [mkO hw declared (negb (s_closed (st_s t))) (s_closed s')].
@@ -151,19 +184,20 @@ Definition do_open (declared : bool) (m : omode) (closefd read_evlrs : bool) (f 
   | Some _ => (t, RIgnored)
   | None =>
     if gen_open_pre_assert_seekable m && (s_closed s || negb (s_seekable s)) then
-      (* the assertion before the try fails (or seekable() raises on a closed stream): no except clause runs *)
+      (* the assertion before the try fails (or seekable() raises on a closed stream, or the object has no seekable at
+         all: AttributeError): no except clause runs *)
       (mkSt s None (add_obs t s HPrecondition declared), RRaised XOther)
     else
       let failure := if s_closed s then Some XOther
-                     else if is_a m && negb (s_seekable s) then Some gen_appender_nonseekable_exn
-                     else open_exn m o f read_evlrs (s_seekable s) in
+                     else if is_a m && negb (s_seekable s) then Some (appender_refusal (s_cap s))
+                     else open_exn m o f read_evlrs (s_cap s) in
       match failure with
       | Some x => let s' := handle_exn (gen_open_handlers m closefd) x s in
                   (mkSt s' None (add_obs t s' HFailedOpen declared), RRaised x)
       | None =>
-          let s' := if is_r m then set_pos s (header_read_pos f read_evlrs (s_seekable s) (s_pos s)) else s in
+          let s' := if is_r m then set_pos s (header_read_pos f read_evlrs (s_cap s) (s_pos s)) else s in
           let h := mkH m (gen_init_closefd m (gen_open_ctor_closefd m closefd)) declared PNone f 0
-                       (is_r m && pending_evlrs f read_evlrs (s_seekable s)) in
+                       (is_r m && pending_evlrs f read_evlrs (s_cap s)) in
           (mkSt s' (Some h) (st_log t), RDone)
       end
   end.
@@ -213,19 +247,33 @@ Definition do_seek (pos whence : Z) (h : handle) (s : stream) : handle * stream 
       end
   end.
 
+(* EVLRs left for read(): LasReader.read asks its point source's source whether it can seek (gen_reader_read_query).
+   yes -> self.read_evlrs() = LasHeader.read_evlrs(self._source), which asks for itself and, told no, leaves them unread;
+   no -> they are read where the stream stands; no answer -> AttributeError *)
+Definition load_pending (h : handle) (s : stream) : handle * stream * res :=
+  let f := h_file h in
+  match query gen_reader_read_query (s_cap s) with
+  | None => (h, s, RRaised XOther)
+  | Some true =>
+      match evlr_query f (s_cap s) with
+      | None => (h, s, RRaised XOther)
+      | Some true => if f_evlr_bad f then (h, s, RRaised XOther)   (* the decode error leaves the stream inside the EVLRs: position not modelled *)
+                     else (clear_pending h, set_pos s (run_sops f gen_read_evlrs_ops (s_pos s)), RDone)
+      | Some false => (h, s, RDone)
+      end
+  | Some false => if f_evlr_bad f then (h, s, RRaised XOther)
+                  else (clear_pending h, set_pos s (rd (f_size f) (s_pos s) (f_evlr_bytes f)), RDone)
+  end.
+
 Definition do_read_all (h : handle) (s : stream) : handle * stream * res :=
   let '(h1, s1, r1) := do_read_points (-1) h s in
   match r1 with
   | RDone =>
     if h_pending_evlrs h1 then
-      let p := ensure_ps h1 in                       (* `self.point_source.source.seekable()` creates the point source *)
+      let p := ensure_ps h1 in                       (* `self.point_source.source` creates the point source *)
       let h2 := set_ps h1 p in
-      if ps_src_some p then
-        let f := h_file h in
-        if f_evlr_bad f then (h2, s1, RRaised XOther)        (* the decode error leaves the stream inside the EVLRs: position not modelled *)
-        else if s_seekable s1 then (clear_pending h2, set_pos s1 (run_sops f gen_read_evlrs_ops (s_pos s1)), RDone)
-        else (clear_pending h2, set_pos s1 (rd (f_size f) (s_pos s1) (f_evlr_bytes f)), RDone)
-      else (h2, s1, RRaised XOther)                  (* None.seekable() *)
+      if ps_src_some p then load_pending h2 s1
+      else (h2, s1, RRaised XOther)                  (* None.seekable() / None.read() *)
     else (h1, s1, RDone)
   | _ => (h1, s1, r1)
   end.
@@ -297,8 +345,8 @@ Fixpoint trace (t : st) (evs : list event) : list (res * st) :=
   end.
 
 (* a stream the caller has just created or opened, standing at position p (whatever comes before is not laspy's) *)
-Definition init_at (seekable : bool) (p : Z) : st := mkSt (mkS false p seekable) None [].
-Definition init (seekable : bool) : st := init_at seekable 0.
+Definition init_at (c : seekcap) (p : Z) : st := mkSt (mkS false p c) None [].
+Definition init (c : seekcap) : st := init_at c 0.
 
 (* ---------------- the property's reading of the log ---------------- *)
 (* the stream was open when laspy got it, laspy has let go of it: it is closed iff the caller said closefd.
